@@ -358,6 +358,63 @@ func streamerReaderReleases(p *packages.Package) []string {
 	return res
 }
 
+// the sender goroutine of MessageStreamer.Go (the func literal that runs the fetch): for every
+// statement that hands deliveries to the connection (conn.Send / SendBatch) — "book-first" when an
+// assignment into `pending[...]` comes before it in the same loop body, else "send-first"
+func streamerBooksBeforeSend(p *packages.Package) []string {
+	fd := funcDecl(p, "MessageStreamer", "Go")
+	var res []string
+	if fd == nil {
+		problem("MessageStreamer.Go not found")
+		return res
+	}
+	var sender *ast.FuncLit
+	ast.Inspect(fd.Body, func(n ast.Node) bool {
+		fl, ok := n.(*ast.FuncLit)
+		if !ok || sender != nil {
+			return true
+		}
+		ast.Inspect(fl.Body, func(m ast.Node) bool {
+			if c, ok := m.(*ast.CallExpr); ok && exprName(c.Fun) == "getter.ExecuteClient" {
+				sender = fl
+			}
+			return true
+		})
+		return true
+	})
+	if sender == nil {
+		problem("sender goroutine of MessageStreamer.Go not found")
+		return res
+	}
+	// positions (source offsets) of the first assignment into pending[...] and of every send
+	bookPos := token.NoPos
+	var sends []token.Pos
+	ast.Inspect(sender.Body, func(n ast.Node) bool {
+		switch x := n.(type) {
+		case *ast.AssignStmt:
+			for _, l := range x.Lhs {
+				if ix, ok := l.(*ast.IndexExpr); ok && exprName(ix.X) == "pending" && bookPos == token.NoPos {
+					bookPos = x.Pos()
+				}
+			}
+		case *ast.CallExpr:
+			name := exprName(x.Fun)
+			if name == "conn.Send" || name == "sb.SendBatch" {
+				sends = append(sends, x.Pos())
+			}
+		}
+		return true
+	})
+	for _, sp := range sends {
+		if bookPos != token.NoPos && bookPos < sp {
+			res = append(res, "book-first")
+		} else {
+			res = append(res, "send-first")
+		}
+	}
+	return res
+}
+
 // every pruneServiceFor("name", func(params) { return actions.NewX(params) }) registration: (name, constructor)
 func pruneServices(p *packages.Package) []string {
 	var res []string
@@ -739,6 +796,7 @@ func main() {
 	fmt.Fprintf(&out, "/-- the cases of that loop's select and how each ends -/\ndef pullSelectCases : List String := %s\n", q(selCases))
 	fmt.Fprintf(&out, "/-- the transaction closures of GetSubscriptionMessages.execute that select candidates: do they record the attempt too -/\ndef pullTxShape : List String := %s\n", q(pullTxShape(act)))
 	fmt.Fprintf(&out, "/-- every `case <-pubNotify` of MessageStreamer.Go: does it take a new awaiter first -/\ndef streamerRenewals : List String := %s\n", q(streamerRenewals(act)))
+	fmt.Fprintf(&out, "/-- every Send / SendBatch of the sender goroutine of MessageStreamer.Go: are the fetched deliveries entered into `pending` before it -/\ndef streamerBooksBeforeSend : List String := %s\n", q(streamerBooksBeforeSend(act)))
 	fmt.Fprintf(&out, "/-- every `delete(pending, id)` of the reader goroutine of MessageStreamer.Go: is it under `if pending[id] == <entry snapshotted before the database call>` -/\ndef streamerReaderReleases : List String := %s\n", q(streamerReaderReleases(act)))
 
 	out.WriteString("\n/-- List handler ↦ literal appended to the project to form the name prefix -/\n")
